@@ -22,7 +22,8 @@ def lex(atoms):
     while i < len(atoms):
         a = atoms[i]
         if _is_hole(a):
-            return None                      # a formatted number outside a \u escape
+            from pyvc.core import Unsupported
+            raise Unsupported("formatted number (%%%s) outside a unicode escape" % a[0])
         if a == 0x5C:                        # backslash (forks when `a` is a proxy)
             if i + 1 >= len(atoms) or _is_hole(atoms[i + 1]):
                 return None
@@ -31,6 +32,14 @@ def lex(atoms):
                 j = i + 2
                 while j < len(atoms) and not _is_hole(atoms[j]) and atoms[j] == ord("u"):
                     j += 1                   # \uuuu0041 is legal
+                if j < len(atoms) and _is_hole(atoms[j]) and atoms[j][0] in ("04x", "04X"):
+                    # one conversion rendering the whole unit: '%04x' of 0..0xFFFF is exactly four hex digits
+                    val = atoms[j][1]
+                    side.append(And(val >= 0, val <= 0xFFFF))
+                    side.append(And(val != 0x22, val != 0x5C, val != 0x0A, val != 0x0D))
+                    units.append(val)
+                    i = j + 1
+                    continue
                 digs = atoms[j:j + 4]
                 if len(digs) < 4:
                     return None
@@ -39,7 +48,9 @@ def lex(atoms):
                     if _is_hole(d):
                         conv, v = d
                         if conv != "x":
-                            return None
+                            # a conversion this lexer has no rule for: the harness cannot tell how many digits it renders
+                            from pyvc.core import Unsupported
+                            raise Unsupported("number conversion %%%s inside a unicode escape" % conv)
                         side.append(And(v >= 0, v <= 15))   # '%x' of 0..15 is exactly one hex digit
                     else:
                         v = None
